@@ -22,7 +22,7 @@ type Obligation struct {
 	Expect string // "unsat" (default) or "sat" for vacuity guards
 	Fn     string
 	// model extraction hints: name -> SMT term to evaluate
-	Inputs []ModelVar
+	Inputs  []ModelVar
 	Outputs []ModelVar
 }
 
@@ -37,7 +37,7 @@ type defn struct {
 	def   string // "" for plain declarations
 	args  string // for declare-fun: "(Int Int)"
 	deps  []string
-	isRec bool   // define-fun-rec: args holds the formal parameter list
+	isRec bool // define-fun-rec: args holds the formal parameter list
 }
 
 type axiom struct {
@@ -47,17 +47,17 @@ type axiom struct {
 }
 
 type VC struct {
-	tc      *TypeCtx
-	mode    Mode
-	defs    map[string]*defn
-	order   []string
-	axioms  []*axiom
-	counter int
-	obls    []*Obligation
-	notes   []string // unmodelled things, uncontracted callees
-	noteSet map[string]bool
-	heapT   map[string]heapComp
-	prog    *Program
+	tc       *TypeCtx
+	mode     Mode
+	defs     map[string]*defn
+	order    []string
+	axioms   []*axiom
+	counter  int
+	obls     []*Obligation
+	notes    []string // unmodelled things, uncontracted callees
+	noteSet  map[string]bool
+	heapT    map[string]heapComp
+	prog     *Program
 	noDefine int
 	recBusy  map[string]bool
 }
@@ -297,14 +297,14 @@ func (vc *VC) prelude() string {
 // Program: loaded packages, SSA and contracts.
 
 type Program struct {
-	ssaProg   *ssa.Program
-	fset      *token.FileSet
-	funcs     map[string]*ssa.Function // key: pkgrel.Recv.Name or pkgrel.Name
-	cs        *ContractSet
-	pkgs      map[string]*ssa.Package // by rel path
-	typesPkgs map[string]*types.Package
-	loopFree  map[*ssa.Function]bool
-	implCache map[string][]types.Type
+	ssaProg        *ssa.Program
+	fset           *token.FileSet
+	funcs          map[string]*ssa.Function // key: pkgrel.Recv.Name or pkgrel.Name
+	cs             *ContractSet
+	pkgs           map[string]*ssa.Package // by rel path
+	typesPkgs      map[string]*types.Package
+	loopFree       map[*ssa.Function]bool
+	implCache      map[string][]types.Type
 	mutableGlobals map[*ssa.Global]bool
 	globalByComp   map[string]*ssa.Global
 }
